@@ -379,3 +379,103 @@ pub proof fn lemma_backward(x: int)
         }
     }
 }
+
+// ---------------------------------------------------------------------------------------------
+// kernel domains and the stage functions of the backward kernel
+// largest domains on which no intermediate of the kernels overflows (derived from the code)
+pub open spec fn fwd_year_ok(y: int) -> bool { -1_467_999 <= y <= 1_471_744 }
+pub open spec fn bwd_day_ok(n: int) -> bool { -536_895_458 <= n <= 536_846_365 }
+pub open spec fn rd_ok(x: int) -> bool { 0 <= x <= 1_073_741_823 }
+
+/// what the backward kernel must return for computational rata die x
+pub open spec fn ns_c(x: int) -> int { (4 * x + 3) / 146097 }
+pub open spec fn ns_nc(x: int) -> int { ((4 * x + 3) % 146097) / 4 }
+pub open spec fn ns_z(x: int) -> int { (4 * ns_nc(x) + 3) / 1461 }
+pub open spec fn ns_ny(x: int) -> int { ((4 * ns_nc(x) + 3) % 1461) / 4 }
+pub open spec fn ns_mm(x: int) -> int { (2141 * ns_ny(x) + 197913) / 65536 }
+pub open spec fn ns_dd(x: int) -> int { ((2141 * ns_ny(x) + 197913) % 65536) / 2141 }
+pub open spec fn ns_j(x: int) -> int { if ns_ny(x) >= 306 { 1 } else { 0 } }
+
+pub proof fn lemma_backward_ns(x: int)
+    requires 0 <= x,
+    ensures ({ let y = 100 * ns_c(x) + ns_z(x) + ns_j(x) - 1_468_000; let m = ns_mm(x) - 12 * ns_j(x); let d = ns_dd(x) + 1;
+        valid_ymd(y, m, d) && days_from_civil(y, m, d) == x - 536_895_458 && 0 <= ns_ny(x) <= 365 && 0 <= ns_z(x) <= 99 && ns_c(x) >= 0
+        && 3 <= ns_mm(x) <= 14 && 0 <= ns_dd(x) <= 30 }),
+{
+    lemma_backward(x);
+    lemma_month_stage(ns_ny(x));
+}
+
+/// consecutive day numbers are consecutive calendar days (successor function of the calendar)
+pub open spec fn succ_y(y: int, m: int, d: int) -> int { if d < dim(y, m) { y } else if m < 12 { y } else { y + 1 } }
+pub open spec fn succ_m(y: int, m: int, d: int) -> int { if d < dim(y, m) { m } else if m < 12 { m + 1 } else { 1 } }
+pub open spec fn succ_d(y: int, m: int, d: int) -> int { if d < dim(y, m) { d + 1 } else { 1 } }
+
+pub proof fn lemma_succ(y: int, m: int, d: int)
+    requires valid_ymd(y, m, d),
+    ensures valid_ymd(succ_y(y, m, d), succ_m(y, m, d), succ_d(y, m, d)),
+            days_from_civil(succ_y(y, m, d), succ_m(y, m, d), succ_d(y, m, d)) == days_from_civil(y, m, d) + 1,
+{
+    if d < dim(y, m) {
+    } else if m < 12 {
+        lemma_month_roll(y, m);
+    } else {
+        lemma_year_roll(y);
+    }
+}
+
+/// days on which both kernels are defined (forward needs 1461*(y+1468000) to fit u32)
+pub open spec fn both_day_ok(n: int) -> bool { -536_895_152 <= n <= 536_824_295 }
+
+pub proof fn lemma_year_bounds(y: int, m: int, d: int, n: int)
+    requires valid_ymd(y, m, d), days_from_civil(y, m, d) == n, both_day_ok(n),
+    ensures -1_467_999 <= y <= 1_471_744,
+{
+    assert(days_from_civil(-1_467_999, 1, 1) == -536_895_152);
+    assert(days_from_civil(1_471_744, 12, 31) == 536_824_295);
+    if y < -1_467_999 {
+        lemma_dfc_mono(y, m, d, -1_467_999, 1, 1);
+    }
+    if y > 1_471_744 {
+        lemma_dfc_mono(1_471_744, 12, 31, y, m, d);
+    }
+}
+
+
+/// the civil year containing day number n (defined through the backward stages; characterised by lemma_civil_year)
+pub open spec fn civil_year(n: int) -> int {
+    let x = n + 536_895_458;
+    100 * ns_c(x) + ns_z(x) + ns_j(x) - 1_468_000
+}
+
+pub proof fn lemma_civil_year(n: int)
+    requires n >= -536_895_458,
+    ensures days_from_civil(civil_year(n), 1, 1) <= n < days_from_civil(civil_year(n) + 1, 1, 1),
+{
+    let x = n + 536_895_458;
+    lemma_backward_ns(x);
+    let y = civil_year(n); let m = ns_mm(x) - 12 * ns_j(x); let d = ns_dd(x) + 1;
+    if !(m == 1 && d == 1) { lemma_dfc_mono(y, 1, 1, y, m, d); }
+    lemma_dfc_mono(y, m, d, y + 1, 1, 1);
+}
+
+pub proof fn lemma_civil_year_unique(n: int, y: int)
+    requires n >= -536_895_458, days_from_civil(y, 1, 1) <= n < days_from_civil(y + 1, 1, 1),
+    ensures civil_year(n) == y,
+{
+    lemma_civil_year(n);
+    let c = civil_year(n);
+    if c < y { lemma_dfc_order(c + 1, 1, 1, y, 1, 1); }
+    if c > y { lemma_dfc_order(y + 1, 1, 1, c, 1, 1); }
+}
+
+/// BalanceISODate: the day number of (year, month, day) with month any integer (1-based) and day any integer
+pub open spec fn balance_days(year: int, month: int, day: int) -> int {
+    days_from_civil(ym_norm_y(year, month), ym_norm_m(year, month), 1) + day - 1
+}
+
+pub proof fn lemma_balance_days_valid(y: int, m: int, d: int)
+    requires 1 <= m <= 12,
+    ensures balance_days(y, m, d) == days_from_civil(y, m, d),
+{
+}
